@@ -160,13 +160,35 @@ func signatureHistory(raw json.RawMessage, impl any) string {
 
 type features struct {
 	pidChange, podMove, podRecreateUnbound, deleteBeforeUpdate, nodeGoneClaimStays, quiescentWithPods bool
+	podTerminating bool // a bound, non-terminal pod with a deletionTimestamp is written
+	volPodsOnNode  int  // the largest number of live pods with PVC volumes bound to one node name at any time
 }
 
 func featuresOf(in *In, o *Out) features {
 	var f features
 	nodePid, claimPid, podNode := map[string]string{}, map[string]string{}, map[string]string{}
 	dirty := map[string]string{} // key -> last API event type while dirty
+	volPod := map[string]string{} // live pod with volumes -> node name
 	for _, e := range in.Ev {
+		switch e.T {
+		case "pod":
+			if e.Del && e.Node != "" && e.Phase != "Succeeded" && e.Phase != "Failed" {
+				f.podTerminating = true
+			}
+			delete(volPod, e.Name)
+			if len(e.Vols) > 0 && e.Node != "" && e.Phase != "Succeeded" && e.Phase != "Failed" {
+				volPod[e.Name] = e.Node
+				per := map[string]int{}
+				for _, n := range volPod {
+					per[n]++
+					if per[n] > f.volPodsOnNode {
+						f.volPodsOnNode = per[n]
+					}
+				}
+			}
+		case "podGone":
+			delete(volPod, e.Name)
+		}
 		switch e.T {
 		case "node":
 			if old, ok := nodePid[e.Name]; ok && old != e.Pid {
@@ -251,6 +273,15 @@ func labelsHistory(raw json.RawMessage, impl any) []string {
 	if f.quiescentWithPods {
 		l = append(l, "quiescent-with-pods")
 	}
+	if f.podTerminating {
+		l = append(l, "pod-terminating-bound")
+	}
+	if f.volPodsOnNode >= 3 {
+		l = append(l, "pods-with-volumes-on-one-node>=3")
+	}
+	if len(in.Pvcs) > len(stdPvcs) {
+		l = append(l, "dense-storage-world")
+	}
 	if o != nil {
 		l = append(l, fmt.Sprintf("fresh-oracle-points=%d", len(o.Fresh)))
 		if o.Panic != "" {
@@ -286,7 +317,7 @@ func nontrivialHistory(raw json.RawMessage, impl any) bool {
 	var in In
 	json.Unmarshal(raw, &in)
 	f := featuresOf(&in, decodeOut(impl))
-	return f.quiescentWithPods && (f.pidChange || f.podMove || f.podRecreateUnbound || f.deleteBeforeUpdate || f.nodeGoneClaimStays)
+	return f.quiescentWithPods && (f.pidChange || f.podMove || f.podRecreateUnbound || f.deleteBeforeUpdate || f.nodeGoneClaimStays || f.podTerminating || f.volPodsOnNode >= 3)
 }
 
 const implDoc = "through the real informer Node/NodeClaim/Pod controllers (Reconcile) into the real state.Cluster on the controller-runtime fake client; every exported accessor of Cluster/StateNode/NodePoolState/HostPortUsage/VolumeUsage after every step; a fresh Cluster fed the same API objects at quiescent points"
@@ -295,7 +326,7 @@ func Ops() []*core.Op {
 	return []*core.Op{
 		{
 			Name: "c11.history",
-			Doc:  "random event histories (API changes of Nodes/NodeClaims/Pods incl. provider-id changes, same-name pods, undelivered deletes; reconcile deliveries in any order with duplicates; MarkForDeletion/Unmark/Nominate) " + implDoc,
+			Doc:  "random event histories (API changes of Nodes/NodeClaims/Pods incl. provider-id changes, same-name pods, undelivered deletes, gracefully terminating pods (deletionTimestamp set, still bound and Running), many pods mounting volumes of one CSI driver on one node; reconcile deliveries in any order with duplicates; MarkForDeletion/Unmark/Nominate) " + implDoc,
 			N: func(t core.Tier) int {
 				if t == core.Thorough {
 					return 8000
@@ -304,7 +335,7 @@ func Ops() []*core.Op {
 			},
 			Gen:        genHistory,
 			Impl:       implHistory,
-			Rule:       "random walks over 1-3 node/claim pairs and 1-5 pod names (8..53 events quick, 8..168 thorough), 5% malformed streams (colliding provider ids etc.: model correspondence only); non-trivial = a quiescent point is reached with pods on a tracked node and the history contains a provider-id change, a same-name pod on another node/unbound, an undelivered delete+recreate, or a node removed while its claim stays",
+			Rule:       "random walks over 1-3 node/claim pairs and 1-5 pod names (8..53 events quick, 8..168 thorough); 12% of the changes of an existing pod start its graceful deletion, 4% of new pods are first seen terminating; 30% dense histories (1-2 machines, a tracked node first, 4-7 pod names, six PVCs of one CSI driver, CSINode limit 0..7, 80% pod events); 5% malformed streams (colliding provider ids etc.: model correspondence only); non-trivial = a quiescent point is reached with pods on a tracked node and the history contains a provider-id change, a same-name pod on another node/unbound, an undelivered delete+recreate, a node removed while its claim stays, a bound terminating pod, or >=3 pods with volumes on one node",
 			Nontrivial: nontrivialHistory,
 			Labels:     labelsHistory,
 			Signature:  signatureHistory,
@@ -312,7 +343,7 @@ func Ops() []*core.Op {
 		},
 		{
 			Name: "c11.orders",
-			Doc:  "every delivery order of the reconciles that settle 7 fixed API scripts (creation, NodeClaim update after settling, node gets its provider id, pod moves to another node, delete everything, deleting claim, registration) " + implDoc,
+			Doc:  "every delivery order of the reconciles that settle 11 fixed API scripts (creation, NodeClaim update after settling, node gets its provider id, pod moves to another node, delete everything, deleting claim, pods start terminating, pods first seen terminating, four pods with volumes of one driver leave one by one / one is re-added, registration) " + implDoc,
 			Enum: enumHistory,
 			Impl: implHistory,
 			Rule: "exhaustive: all permutations of the settling reconciles per script; non-trivial = a quiescent point is reached with pods on a tracked node",
@@ -324,7 +355,8 @@ func Ops() []*core.Op {
 			Labels:         labelsHistory,
 			Signature:      signatureHistory,
 			Shrink:         shrinkHistory,
-			ExhaustiveNote: "all delivery orders of the settling reconciles for 7 fixed API scripts",
+			ExhaustiveNote: "all delivery orders of the settling reconciles for 11 fixed API scripts",
 		},
+		usageOp(),
 	}
 }
